@@ -995,9 +995,9 @@ class Interp:
                         return Adt(parent, vnames.index(short), {i: v for i, v in enumerate(argv)})
                 if short in ("Ok", "Some", "Err"):
                     return {"Ok": Ok, "Some": Some, "Err": Err}[short](argv[0])
-                if short in ("from", "into", "to_owned", "to_vec", "clone", "copied", "cloned") and len(argv) == 1:
-                    return argv[0]     # a foreign conversion passed as a function item (`.map(Bytes::from)`) carries the value
-                return Tok("%s(%s)" % (short, ",".join(self.tokname(x) for x in argv)))
+                # any other foreign function item (`.map(Vec::into_iter)`, `.map(Bytes::from)`): the call the closure `|x| f(x)` would
+                # make, answered by the oracle / the collection models like a direct call (RF33)
+                return self.apply(fv, list(argv), depth)
             return TOP
         if name in ("is_some", "is_ok"):
             return Int(good)
